@@ -504,6 +504,7 @@ def _typeref_faults(g, e, ek, local, a, b, current, is_attr, max_requirers):
         out.append(Fault(kind, k, local, [(a, b, escape(target))], note))
 
     mk("typeRef-missing", MISSING_TYPE)
+    mk("typeRef-simple", "string" if current != "string" else "number")
     # chain of enclosing itemDefinition / itemComponent elements, nearest first
     chain = []
     p = e if is_attr else e.parent
@@ -743,10 +744,23 @@ def _type_value(g, type_ref, depth=0):
     return None
 
 
+def _wrong(v, keep_shape):
+    """A value that does NOT conform: strings become numbers, everything else a string; with keep_shape the
+    contexts / lists keep their shape and only the leaves are wrong, otherwise the whole value is a scalar."""
+    if keep_shape and isinstance(v, list):
+        return [_wrong(x, True) for x in v] + [None]
+    if keep_shape and isinstance(v, dict) and "c" in v:
+        return {"c": [[k, _wrong(x, True)] for k, x in v["c"]]}
+    if isinstance(v, dict) and "s" in v:
+        return {"n": "1"}
+    return {"s": "zzz"}
+
+
 def sample_inputs(doc):
     """[empty context, context binding the variable name of every inputData to a value of its type, the
     same plus every decision variable (decision services with input decisions read those) and every
-    formal parameter of a business knowledge model (invoking a BKM by name reads those)]."""
+    formal parameter of a business knowledge model (invoking a BKM by name reads those), the same names bound
+    to values of the right shape with wrongly typed leaves, the same names bound to wrongly typed scalars]."""
     g = Graph(doc)
     entries = []
     names = set()
@@ -786,7 +800,9 @@ def sample_inputs(doc):
                     names.add(name)
                     tr = fp.attr("typeRef")
                     full.append([name, _type_value(g, unescape(tr.value).strip()) if tr is not None else {"n": "1"}])
-    return [[], entries, full]
+    wrong_leaves = [[n, _wrong(v, True)] for n, v in full]
+    wrong_shape = [[n, _wrong(v, False)] for n, v in full]
+    return [[], entries, full, wrong_leaves, wrong_shape]
 
 
 # ---------------------------------------------------------------------------------------------
